@@ -64,23 +64,25 @@ class ColangParser:
         in_docstring = False
         for i in range(len(lines)):
             line = lines[i]
+            # An end-of-line comment after a closing triple quote is not part of the docstring
+            stripped_line = re.sub(r'"""\s*#.*$', '"""', line.strip())
             if (
                 not in_docstring
-                and line.strip().startswith('"""')
-                and line.strip().endswith('"""')
-                and line.strip() != '"""'
+                and stripped_line.startswith('"""')
+                and stripped_line.endswith('"""')
+                and stripped_line != '"""'
             ):
                 pass
-            elif not in_docstring and line.strip().startswith('"""'):
+            elif not in_docstring and stripped_line.startswith('"""'):
                 in_docstring = True
-            elif in_docstring and line.strip().endswith('"""'):
+            elif in_docstring and stripped_line.endswith('"""'):
                 in_docstring = False
             elif in_docstring:
                 pass
             else:
                 # We make sure to capture the correct indentation level and use that.
                 lines[i] = re.sub(
-                    r"^( +)\.\.\.",
+                    r"^( +)\.\.\.(?:[ \t]*#[^\n]*$)?",
                     textwrap.dedent(
                         r"""
                         \1$flow_info = await GenerateFlowAction(flow_id=$self.flow_id)
